@@ -249,11 +249,14 @@ def const_int(fn, v):
 def ret_values(fn):
     return [(i, i.ops[0] if i.ops else None) for i in fn.insts() if i.op == 'ret']
 
-def possible_consts(fn, v, via=None, seen=None, facts=None):
-    """set of python ints / descriptor strings value v may take; phi incomings restricted to predecessor blocks in `via`"""
+def possible_consts(fn, v, via=None, seen=None, facts=None, known=None):
+    """set of python ints / descriptor strings value v may take; incomings of phis that sit inside the region `via` are
+    restricted to predecessor blocks in `via`; `known` maps SSA values to constants established by dominating edges"""
     seen = seen if seen is not None else set()
     if INT.match(v):
         return {int(v)}
+    if known and v in known:
+        return {known[v]}
     if v in seen:
         return set()
     seen.add(v)
@@ -262,17 +265,18 @@ def possible_consts(fn, v, via=None, seen=None, facts=None):
         return {'param:' + v}
     if d.op == 'phi':
         out = set()
+        inside = via is None or d.bb in via
         for val, lab in d.incoming:
             pb = fn.blocks[lab]
-            if via is None or pb in via:
-                out |= possible_consts(fn, val, via, seen, facts)
+            if via is None or not inside or pb in via:
+                out |= possible_consts(fn, val, via, seen, facts, known)
         return out
     if d.op in ('sext', 'zext', 'trunc'):
-        return possible_consts(fn, d.ops[0], via, seen, facts)
+        return possible_consts(fn, d.ops[0], via, seen, facts, known)
     if d.op == 'select':
-        return possible_consts(fn, d.ops[1], via, seen, facts) | possible_consts(fn, d.ops[2], via, seen, facts)
+        return possible_consts(fn, d.ops[1], via, seen, facts, known) | possible_consts(fn, d.ops[2], via, seen, facts, known)
     if d.op == 'sub' and d.ops[0] == '0':
-        inner = possible_consts(fn, d.ops[1], via, seen, facts)
+        inner = possible_consts(fn, d.ops[1], via, seen, facts, known)
         return {(-x if isinstance(x, int) else 'neg:' + str(x)) for x in inner}
     if d.op == 'call':
         return {'call:' + d.callee}
